@@ -27,8 +27,11 @@ class Inv:
         self.tag, self.fail, self.calls = tag, fail, calls
         self.error = Invalid('inv %s' % (tag,))
 
+    seen_objects = []
+
     def __call__(self, ob):
         self.calls.append(self)
+        Inv.seen_objects.append(ob)
         if self.fail:
             raise self.error
 
@@ -264,12 +267,16 @@ class World:
             del self.calls[:]
             errors = []
             raised = None
+            subject = object()
+            del Inv.seen_objects[:]
             try:
-                I.validateInvariants(object(), errors)
+                I.validateInvariants(subject, errors)
             except Invalid as e:
                 raised = e
             ctx.ev()
             ctx.count('invariant_validations')
+            if any(o is not subject for o in Inv.seen_objects):
+                ctx.violation('invariant-called-with-something-else', {'iface': I.__name__, 'got': [type(o).__name__ for o in Inv.seen_objects][:3]})
             ok = [c.tag for c in self.calls] == [c.tag for c in expected_run] and \
                 len(errors) == len(fails) and all(a is b.error for a, b in zip(errors, fails)) and \
                 (raised is not None) == bool(fails)
@@ -415,6 +422,24 @@ def run_case(ctx, rng, job):
             continue
         if rng.random() < 0.2:
             overlapping_rebase(w)
+            continue
+        if rng.random() < 0.25 and w.ifaces:
+            # an ancestor gets another tagged value, or one more invariant, after its descendants have been asked already
+            I = rng.choice(w.ifaces)
+            if rng.random() < 0.6:
+                t = rng.choice(TAGS)
+                v = ('late', len(ctx.log), t)
+                I.setTaggedValue(t, v)
+                w.tags[id(I)][t] = v
+                ctx.op('late-tag', I.__name__, t)
+            else:
+                inv = Inv(('late', len(ctx.log)), rng.random() < 0.3, w.calls)
+                cur = list(w.invs[id(I)]) + [inv]
+                I.setTaggedValue('invariants', list(cur))
+                w.invs[id(I)] = cur
+                ctx.op('late-invariant', I.__name__)
+            ctx.count('definitions_added_after_the_first_query')
+            w.check('after-late-definition')
             continue
         if w.rebase() is False:
             break
